@@ -72,7 +72,7 @@ Theorem memo_fresh_if_no_rewrite h : forall st loaded,
   cache_fresh (st_fs st) loaded (st_cache st) -> no_rewrite loaded h = true ->
   run fitf true maxsize kf st h = fresh_run fitf (st_fs st) h.
 Proof.
-  induction h as [|[p c|q] h IH]; intros st loaded CF NR; simpl in *; [reflexivity| |].
+  induction h as [|[p c|q|p] h IH]; intros st loaded CF NR; simpl in *; [reflexivity| | |].
   - apply andb_prop in NR. destruct NR as [NP NR].
     apply (IH {| st_fs := fs_put (st_fs st) p c; st_cache := st_cache st |} loaded); simpl; [|exact NR].
     intros k v Hin. destruct (CF k v Hin) as [q [E1 [E2 E3]]]. exists q. repeat split; simpl; auto.
@@ -98,6 +98,7 @@ Proof.
         -- destruct (CF k v' H) as [q2 [A1 [A2 A3]]]. exists q2. repeat split; simpl; auto.
       * f_equal. apply (IH st (q_file q :: loaded)); [|exact NR].
         intros k v' H. destruct (CF k v' H) as [q2 [A1 [A2 A3]]]. exists q2. repeat split; simpl; auto.
+  - f_equal. apply (IH st loaded); assumption.
 Qed.
 
 End MemoProofs.
@@ -105,8 +106,9 @@ End MemoProofs.
 Theorem unmemoised_fresh fitf maxsize kf h : forall st,
   run fitf false maxsize kf st h = fresh_run fitf (st_fs st) h.
 Proof.
-  induction h as [|[p c|q] h IH]; intros st; simpl; [reflexivity| |].
+  induction h as [|[p c|q|p] h IH]; intros st; simpl; [reflexivity| | |].
   - apply IH.
+  - f_equal. apply IH.
   - f_equal. apply IH.
 Qed.
 
